@@ -559,7 +559,7 @@ func runC09(r *core.Run) {
 									bax = len(sb) - 2
 								}
 								if sa[len(sa)-1] == sb[bax] {
-									for _, mode := range []string{"safe", "reuse"} {
+									for _, mode := range []string{"safe", "reuse", "incr"} {
 										laRun(r, laCase{op: "Dot", d: d, sa: sa, sb: sb, la: la, lb: lb, mode: mode, vs: vs, api: "func"})
 									}
 								}
